@@ -234,6 +234,18 @@ static MPT_INTERFACE(input) *st_in;
 static struct { MPT_STRUCT(buffer) hdr; MPT_STRUCT(command) cmd[ST_NCMD]; } st_tab;
 static MPT_STRUCT(array) st_wait;
 
+/* transport buffer: bytes that left the sender's socket and have not been delivered yet */
+static uint8_t *st_tb; static size_t st_tblen, st_tbcap, st_tbpos;
+static void st_drain(void)
+{
+	uint8_t tmp[4096];
+	ssize_t n;
+	while (st_h1 >= 0 && (n = read(st_h1, tmp, sizeof(tmp))) > 0) {
+		if (st_tblen + n > st_tbcap) { st_tbcap = (st_tblen + n) * 2; st_tb = realloc(st_tb, st_tbcap); }
+		memcpy(st_tb + st_tblen, tmp, n);
+		st_tblen += n;
+	}
+}
 static void st_close(void)
 {
 	if (!st_ready) return;
@@ -293,6 +305,9 @@ static void st_cmd(void)
 		st_mode = mode;
 		if (socketpair(AF_UNIX, SOCK_STREAM, 0, p1) < 0 || socketpair(AF_UNIX, SOCK_STREAM, 0, p2) < 0) { puts("R nosocket | C - | I -"); return; }
 		st_h1 = p1[1]; st_h2 = p2[0];
+		st_tblen = st_tbpos = 0;
+		{ int small = 1; setsockopt(p1[0], SOL_SOCKET, SO_SNDBUF, &small, sizeof(small)); }
+		fcntl(p1[0], F_SETFL, fcntl(p1[0], F_GETFL) | O_NONBLOCK);
 		fcntl(st_h1, F_SETFL, fcntl(st_h1, F_GETFL) | O_NONBLOCK);
 		MPT_STRUCT(stream) init = MPT_STREAM_INIT;
 		tx = init; rx = init;
@@ -334,9 +349,16 @@ static void st_cmd(void)
 		printf("R %s | C - | I -\n", n >= 0 ? "ok" : "refused");
 	}
 	else if (!strcmp(op, "flush") && drv_nw == 2) {
-		int r = mpt_stream_flush(&tx);
+		/* the sender's socket is small and does not block: the flush writes what fits, the transport takes the
+		 * bytes over (unbounded buffer of the driver), until all finished data has left the queue */
+		int r = 0, n = 0;
+		do {
+			r = mpt_stream_flush(&tx);
+			st_drain();
+		} while (tx._wd._state.done && ++n < 100000);
 		if (st_inmsg) st_torn = 1;
-		printf("R %s | C - | I -\n", r < 0 ? "failed" : "ok");
+		printf("R %s | C - | I -\n", tx._wd._state.done ? "failed" : "ok");
+		(void) r;
 	}
 	else if (!strcmp(op, "abort") && drv_nw == 2) {
 		/* give up the message in progress (only asked for while nothing of it has left the queue) */
@@ -348,18 +370,25 @@ static void st_cmd(void)
 	else if (!strcmp(op, "deliver") && drv_nw == 3) {
 		/* the transport: move the next bytes from the sender's socket to the receiver's socket */
 		if (drv_parse_nat(drv_w[2], &a) || a > (1u << 20)) { puts("bad-op"); return; }
-		uint8_t *tmp = malloc(a ? a : 1);
-		ssize_t n = a ? read(st_h1, tmp, a) : 0;
-		size_t off = 0;
-		if (n < 0) n = 0;
-		while (off < (size_t) n) {
-			ssize_t w = write(st_h2, tmp + off, n - off);
+		size_t off = 0, n;
+		st_drain();
+		n = st_tblen - st_tbpos;
+		if (n > a) n = a;
+		if (st_h2 < 0) n = 0;   /* the receiver's peer is closed */
+		while (off < n) {
+			ssize_t w = write(st_h2, st_tb + st_tbpos + off, n - off);
 			if (w <= 0) break;
 			off += w;
 		}
-		free(tmp);
+		st_tbpos += off;
 		st_moved += off;
 		printf("R ok n=%zu | C - | I -\n", off);
+	}
+	else if (!strcmp(op, "eof") && drv_nw == 2) {
+		/* the transport closes the receiver's connection: what has been delivered must still come out */
+		if (st_h2 >= 0) close(st_h2);
+		st_h2 = -1;
+		puts("R ok | C - | I -");
 	}
 	else if (!strcmp(op, "poll") && drv_nw == 2) {
 		/* read until the socket is drained (the queue gets more storage whenever it is full) */
@@ -604,6 +633,34 @@ int main(void)
 			else if (!strcmp(op, "msg") && drv_nw == 2) {
 				printf("R msg=");
 				put_message();
+				printf(" guards=%s | C avail=", guards_ok() ? "ok" : "bad");
+				put_message();
+				dq_tail("0");
+			}
+			else if (!strcmp(op, "peek") && drv_nw == 4 && !strcmp(drv_w[3], "nodst")) {
+				/* size query: no destination */
+				if (drv_parse_nat(drv_w[2], &a) || a > (1u << 20)) { puts("bad-op"); continue; }
+				ssize_t n = mpt_queue_peek(&dq, a, 0);
+				printf("R ret=%s out=- guards=%s | C avail=", retname(n, buf, sizeof(buf)), guards_ok() ? "ok" : "bad");
+				put_message();
+				dq_tail(retname(n, buf, sizeof(buf)));
+			}
+			else if (!strcmp(op, "get") && drv_nw == 5) {
+				/* mpt_message_get on any range of the queue data, with or without vector for the second part */
+				MPT_STRUCT(message) msg;
+				struct iovec vec;
+				if (drv_parse_nat(drv_w[2], &a) || drv_parse_nat(drv_w[3], &b) || a > (1u << 20) || b > (1u << 20)) { puts("bad-op"); continue; }
+				int novec = !strcmp(drv_w[4], "novec");
+				int rr = mpt_message_get(&dq.data, a, b, &msg, novec ? 0 : &vec);
+				printf("R ret=%d msg=", rr);
+				if (rr < 0) fputc('-', stdout);
+				else {
+					uint8_t *tmp = malloc(b ? b : 1);
+					size_t n = mpt_message_read(&msg, b, tmp);
+					if (n != b) printf("short%zu:", n);
+					put_bytes(tmp, n);
+					free(tmp);
+				}
 				printf(" guards=%s | C avail=", guards_ok() ? "ok" : "bad");
 				put_message();
 				dq_tail("0");
